@@ -46,13 +46,16 @@ fn gen_batch(tier: Tier, seed: u64, b: u64) -> Vec<Value> {
     cfg.failure_persistence = None;
     let mut runner = TestRunner::new_with_rng(cfg, TestRng::from_seed(RngAlgorithm::ChaCha, &ctx.stream_seed(7)));
     let gs = grammar_strategy(GenCfg::standard(EXTRAS));
+    // every fourth grammar is terminal-heavy (literal concatenation, insensitive non-ASCII literals, the skipper's
+    // fast path over related needle sets): the places where the generated code and the VM take different routes
+    let ts = terminal_heavy_grammar();
     let specs_s = proptest::collection::vec(spec_strategy(), 12);
     let mut out = vec![];
     let want = per_batch(tier);
     let mut tries = 0;
     while out.len() < want && tries < want * 4 {
         tries += 1;
-        let g = gen_one(&mut runner, &gs);
+        let g = if tries % 4 == 0 { gen_one(&mut runner, &ts) } else { gen_one(&mut runner, &gs) };
         let specs = gen_one(&mut runner, &specs_s);
         let Ok(Some(p)) = prepare(&mut ctx, &g) else { continue };
         let alpha = alphabet(&p.cg);
